@@ -32,7 +32,10 @@ VARIABLES file,     \* content of the CA file: a CA, or "garbage" (not a certifi
 vars == <<file, pool, watch, fresh, hist>>
 view == <<file, pool, watch, fresh>>
 
-Init == file = "ca1" /\ pool = <<>> /\ watch = {} /\ fresh = TRUE /\ hist = <<>>
+\* contents of the CA file: one CA, both (a bundle, as during a roll-over), nothing yet (an empty file), or no certificate at all
+Usable == CAs \cup {"bundle"}
+Init == /\ file \in {"ca1", "empty"} /\ pool = <<>> /\ watch = {} /\ fresh = TRUE
+        /\ hist = <<[op |-> "start", ca |-> "", skip |-> "", interval |-> 0, content |-> file]>>      \* (a history begins by saying what the file holds)
 Put(f, k, v) == [x \in (DOMAIN f) \cup {k} |-> IF x = k THEN v ELSE f[x]]
 Log(e) == hist' = Append(hist, e)
 
@@ -56,21 +59,21 @@ Rewrite(c) ==
 \* every alive watcher polls: a changed, usable content replaces the roots of its configuration
 Poll ==
   /\ ~fresh /\ fresh' = TRUE
-  /\ pool' = [k \in DOMAIN pool |-> IF file \in CAs /\ \E w \in watch : w.key = k /\ w.data # file THEN [pool[k] EXCEPT !.roots = {file}] ELSE pool[k]]
-  /\ watch' = {[key |-> w.key, data |-> IF file \in CAs THEN file ELSE w.data] : w \in watch}   \* (unusable content is remembered by the real watcher too; harmless here)
+  /\ pool' = [k \in DOMAIN pool |-> IF file \in Usable /\ \E w \in watch : w.key = k /\ w.data # file THEN [pool[k] EXCEPT !.roots = {file}] ELSE pool[k]]
+  /\ watch' = {[key |-> w.key, data |-> IF file \in Usable THEN file ELSE w.data] : w \in watch}   \* (unusable content is remembered by the real watcher too; harmless here)
   /\ Log([op |-> "wait", ca |-> "", skip |-> "", interval |-> 0, content |-> ""]) /\ UNCHANGED file
 
-Next == Len(hist) < MaxLen /\ (\/ \E s \in Settings : Load(s) \/ \E c \in CAs \cup {"garbage"} : Rewrite(c) \/ Poll)
+Next == Len(hist) < MaxLen + 1 /\ (\/ \E s \in Settings : Load(s) \/ \E c \in Usable \cup {"garbage"} : Rewrite(c) \/ Poll)
 Spec == Init /\ [][Next]_vars
 
 ---------------------------------------------------------------------------
 \* skip-verify is honoured only without a CA
 SkipOnlyWithoutCA == \A k \in DOMAIN pool : pool[k].insecure => (k.ca = "none" /\ k.skip)
 \* C20 Rotation: once the interval has elapsed after a rewrite to a usable CA, every configuration that watches the file trusts the new content
-Rotation == \A k \in DOMAIN pool : (fresh /\ k.ca = "file" /\ k.interval > 0 /\ file \in CAs) => pool[k].roots = {file}
+Rotation == \A k \in DOMAIN pool : (fresh /\ k.ca = "file" /\ k.interval > 0 /\ file \in Usable) => pool[k].roots = {file}
 \* a configuration is watched by at most one watcher
 OneWatcherEach == \A k \in DOMAIN pool : Cardinality({w \in watch : w.key = k}) <= 1
 
 PrintTransition == Export => PrintT(<<"SCN", ToJson(hist')>>)
-PrintFull == (Export /\ Len(hist) = MaxLen) => PrintT(<<"SCN", ToJson(hist)>>)
+PrintFull == (Export /\ Len(hist) = MaxLen + 1) => PrintT(<<"SCN", ToJson(hist)>>)
 =============================================================================
